@@ -8,6 +8,8 @@ CONSTANTS
   Vals = "small"
   Perturb = {"none", "info", "psk", "pskid", "mode", "kdf", "aead", "skr", "enc", "pks", "shift"}
   Impost = FALSE
+  Twin = FALSE
+  BadPkR = FALSE
   Shape = "all"
   Emit = FALSE
   Ordered = TRUE
